@@ -175,6 +175,9 @@ func (i *interpreter) reportPanic(th *thread, p targetPanic) {
 		msg = it.t.String() + ": " + toString(it.v)
 	}
 	label := "panic: " + firstLine(msg)
+	if k := strings.IndexByte(p.stack, '\n'); k > 0 {
+		label += " @ " + p.stack[:k]
+	}
 	func() {
 		defer func() { recover() }()
 		i.addViolation(nil, "panic", label, th.name+": "+msg, nil)
